@@ -29,6 +29,7 @@ import SH.Lemmas.PromLexNum
 import SH.Lemmas.PromLexStr
 import SH.Lemmas.PromLexAllSteps
 import SH.Lemmas.PromLexChain
+import SH.Lemmas.PromLexFrag
 set_option linter.unusedSimpArgs false
 namespace SH.Props.C28
 open SH.PromSyntax
@@ -1432,6 +1433,20 @@ theorem accepted_roundtrip_text_fragment_partial (c : Nat) (w : List Nat) (n m :
 example : (isAlphaB 102 || 102 == 58) = true ∧ (∀ x ∈ [111, 111], isWordB x = true) ∧
     isMetricIdent (classifyKind (String.ofList (([102, 111, 111] : List Nat).map Char.ofNat))) = true ∧
     okSecs 300 = true ∧ okSecs 60 = true := by decide
+
+open SH.PromLex.Frag in
+/-- Character level, recursive fragment (SH.Lemmas.PromLexFrag): for every expression built from metric names, range selectors
+    `name[<n>s]`, parentheses, one-argument calls `f(e)` and ` + `, the whole lexer on the text the printer writes returns exactly
+    the expression's tokens — by induction on the expression, chaining the step lemmas with the lexer-state invariant (paren depth
+    restored, bracket mode left). Not yet covered: matchers, @/offset modifiers, several arguments, aggregations, the other
+    operators and modifiers, numbers/strings as operands, unary signs; and the bridge from these raw tokens to `parse`. -/
+theorem lexAll_printText_fragment (e : TE) (hg : Good e) : lexAll (printText e) = (toksOf e, .eof) :=
+  lexAll_printText e hg
+
+open SH.PromLex.Frag in
+/-- non-vacuity: `f(a[300s] + (b))` is in the fragment -/
+example : Good (.call 102 [] (.add (.rng 97 [] 300) (.par (.sel 98 [])))) := by
+  refine ⟨⟨by decide, by simp⟩, ⟨by decide, by simp⟩, ⟨by decide, by simp⟩⟩
 
 end Lexical
 
